@@ -26,12 +26,12 @@ PLAN = {
     "C01": dict(
         title="Backpropagated gradients are the true derivatives of the objective",
         level="proof",
-        verus=["C01_conv_backward.rs", "C01_deconv_backward.rs", "C01_maxpool_backward.rs", "C07_activations.rs"],
+        verus=["C01_conv_backward.rs", "C01_deconv_backward.rs", "C01_maxpool_backward.rs", "C07_activations.rs", "C16_skip_backward.rs"],
         kani=True,
         undecided_clauses=[
             "dense backward and soft-max x cross-entropy are bounded Kani harnesses (2->2 / 1->2, small-integer data), not proofs",
-            "the reverse layer walk (Network::backward / Feedback::backward: which gradient is handed to which layer, skip connections) "
-            "is read, not verified"],
+            "the reverse step of Network::backward is proved (unit network.backward.walk: which gradient and which input each layer's backward "
+            "receives, what is handed on); Feedback::backward's inner walk and the loop-connection scaling (`loops`, `scale`) are read, not verified"],
     ),
     "C02": dict(
         title="Each layer's forward pass computes its defining operator",
@@ -148,9 +148,12 @@ PLAN = {
     "C16": dict(
         title="Skip connections combine source and target inputs as configured",
         level="proof",
-        verus=["C16_connect.rs", "C16_skip_forward.rs"],
+        verus=["C16_connect.rs", "C16_skip_forward.rs", "C16_skip_backward.rs"],
         kani=True,
-        undecided_clauses=["the gradient clause for additive accumulation (reverse walk of Network::backward): not verified",
+        undecided_clauses=["the gradient clause: the reverse step of Network::backward is proved to differentiate every layer at the input it processed "
+                           "and to sum the gradients of all outgoing additive connections (unit network.backward.walk); that this sum IS the derivative is "
+                           "the multivariate chain rule (F3, trusted) and each layer's own backward is C01's; non-additive accumulations are not handled by the code (TODO there) nor claimed",
+                           "the iterator chain `layers.iter().rev().enumerate().for_each` around the verified closure body (visits layer n-1-i at step i): trusted adapter semantics",
                            "the tensor operations themselves are abstract in the skip unit (their cell-wise meaning is C15's, reshape's is C14's)",
                            "the element-count comparison inside connect() (two matches over layer kinds + assert_eq!) is not part of the verified regions"],
     ),
